@@ -13,8 +13,9 @@ func ReadPDU(r io.Reader) (pdu interface{}, err error) {
 	if err = readHeaderFrom(r, header); err != nil {
 		return
 	}
-	if _, err = r.Read(make([]byte, header.CommandLength-16)); err != nil {
+	if _, err = io.ReadFull(r, make([]byte, header.CommandLength-16)); err != nil {
 		err = ErrInvalidCommandLength
+		return
 	}
 	if t, ok := types[header.CommandID]; !ok {
 		err = ErrInvalidCommandID
